@@ -13,14 +13,14 @@ import (
 )
 
 type CaseC08 struct {
-	Map     map[string]interface{} `json:"map"`
-	Key     string                 `json:"key"`
-	Conds   []Cond                 `json:"conds,omitempty"`
-	Sep     string                 `json:"sep,omitempty"`
-	UsePath bool                   `json:"use_path,omitempty"` // filter clause on ValuesForPath(Steps) instead of ValuesForKey(Key)
-	Steps   []Step                 `json:"steps,omitempty"`
-	Unrelated uint16               `json:"unrelated_opts,omitempty"`
-	Alias *AliasSpec `json:"alias,omitempty"` // one container object gets a second parent in the subject Map
+	Map       map[string]interface{} `json:"map"`
+	Key       string                 `json:"key"`
+	Conds     []Cond                 `json:"conds,omitempty"`
+	Sep       string                 `json:"sep,omitempty"`
+	UsePath   bool                   `json:"use_path,omitempty"` // filter clause on ValuesForPath(Steps) instead of ValuesForKey(Key)
+	Steps     []Step                 `json:"steps,omitempty"`
+	Unrelated uint16                 `json:"unrelated_opts,omitempty"`
+	Alias     *AliasSpec             `json:"alias,omitempty"` // one container object gets a second parent in the subject Map
 }
 
 func init() {
